@@ -280,7 +280,7 @@ void genSimKnobs(vf::Rng& r, vf::Scenario& sc, bool faults) {
         sc.set("pct_horizon", r.logRange(200, 60000));
     } else
         sc.set("strategy", vsim::ST_RTB);
-    { static const int sl[] = {12, 25, 25, 50}; sc.set("starve_limit", sl[r.below(4)]); }
+    { static const int sl[] = {10, 16, 25, 25}; sc.set("starve_limit", sl[r.below(4)]); }
     sc.set("clock_cost_ns", r.chance(0.1) ? r.logRange(1000, 2000000) : r.logRange(100, 20000));
     static const int ty[] = {0, 0, 1, 10, 100};
     sc.set("tick_yield", ty[r.below(5)]);
@@ -373,6 +373,18 @@ static void sleepObs(int tid, long long b, long long e) {
     if (H && vsim::role(tid) == vsim::R_ENGINE) H->engineSleeps.push_back({b, e, g_mainTicks});
 }
 
+void beginUnit(const vf::Scenario& sc, History& h) {
+    H = &h;
+    g_seq = 0;
+    g_mainTicks = g_allTicks = 0;
+    g_collisionP = 0;
+    g_ttYield = sc.knobInt("tt_yield", 0) != 0;
+    g_ttYieldEvery = (int)std::max(1LL, sc.knobInt("tt_yield", 1));
+    g_faultRng = vf::Rng(sc.seed, 7);
+    g_allocFailAt.clear();
+}
+void setTTYield(bool on) { g_ttYield = on; }
+
 void runSession(const vf::Scenario& sc, History& h, vf::Result& res) {
     H = &h;
     g_res = &res;
@@ -444,7 +456,7 @@ extern "C" {
 void verif_node_tick(int threadNo, int site) {
     if (!vsim::active() || !H) return;
     int me = vsim::self();
-    if (g_allTicks > g_maxTicks || H->helperTicks > 5 * g_maxTicks)
+    if (g_allTicks > g_maxTicks || H->helperTicks > 15 * g_maxTicks) // helpers of a starved engine thread may legitimately do far more work
         vsim::fatalExternal("budget", "node budget exhausted: engine ticks " + std::to_string(g_allTicks) + " helper ticks " + std::to_string(H->helperTicks));
     if (vsim::role(me) == vsim::R_ENGINE) {
         vsim::advance(g_nodeCostNs);
